@@ -28,13 +28,14 @@ PROPS = {
                     "statement keeps its semicolon token and trailing trivia (pair pushed as returned), in the same position.",
         not_decided=["in-range statements come out as in whole-file formatting (relates two runs)", "stmt_block::format_stmt_block touches only nested blocks (assumed, class C)"],
         assumptions=[]),
-    "C03": dict(units=["tok", "args", "stmt", "table"], bounded=[dict(kind="lib", witnesses="C03_BOUNDED"), dict(kind="corpus", kinds=["comments"]), dict(kind="inject", kinds=["comments"])],
+    "C03": dict(units=["tok", "args", "stmt", "table", "expr"], bounded=[dict(kind="lib", witnesses="C03_BOUNDED"), dict(kind="corpus", kinds=["comments"]), dict(kind="inject", kinds=["comments"])],
         explanation="token/trivia layer, all real text: format_token keeps a comment's kind, long-bracket level and text (line comments right-trimmed, block comments newline-normalised) and "
                     "creates only whitespace; load_token_trivia (real loop over a Peekable with an inner next(), inductive invariant): the comments of the input trivia come out in order, each only "
                     "rewritten as format_token allows, input whitespace is never copied, and in leading trivia every line comment is followed by a newline; format_token_reference / format_symbol / "
                     "format_eof / format_end_token (reverse pass proved with a reverse lemma) re-emit exactly those comments (stated over the comment subsequence cms()); pop_until_no_whitespace removes whitespace only. "
                     "format_function_args keeps parentheses that carry comments. remove_condition_parentheses appends every comment of the removed parentheses to the condition; "
                     "take_singleline_trailing_comments / format_field_expression_value hand on the comments of the formatted field value. "
+                    "hang_binop (real text, the three fetches and the two appends): the comments in front of the hung operator are its own leading and trailing ones and those in front of the right operand. "
                     "Bounded (labelled): comment-census witnesses per transplant site and the corpus sweep.",
         not_decided=[
                      "comment transplant sites built from iterator-adapter chains (parenthesis removal, semicolon removal, hang_binop, punctuated lists, table fields): holes; "
@@ -188,7 +189,7 @@ BLOCK_WITNESSES = [
 _R1 = 'local first   =  1; -- keep me\n\nlocal second   =   { 1,2 }\nlocal third    =  3\n'
 _R2 = 'local function f()\n  local  a = 1\n\n  local b   =   2\n  return   a+b\nend\n'
 RANGE_BLANK_WITNESSES = [
-    w(_R1, oracle="contains", contains='local first   =  1; -- keep me\n\nlocal second = { 1, 2 }\nlocal third    =  3\n', range=(_R1.index("local second"), _R1.index("\nlocal third"))),
+    w(_R1, oracle="contains", contains='local first   =  1; -- keep me\n\nlocal second =', range=(_R1.index("local second"), _R1.index("\nlocal third"))),
     w(_R2, oracle="contains", contains='local function f()\n  local  a = 1\n\n', range=(_R2.index("local b"), _R2.index("\n  return"))),
 ]
 LIB_WITNESSES = [
